@@ -133,6 +133,14 @@ mod verif_probe_store_c09 {
             let via_add = peek(&s2, 7);
             let built = s2.new_track(7).observation((0, Some(1.5), None, Some(PUpd))).build().unwrap();
             if via_add != Some(view(&built)) { failures.push(format!("{}: add() on a missing id created {:?}, building externally gives {:?}", ctx, via_add, view(&built))); }
+            // an observation that carries ONLY an attribute update (no attributes, no feature): add() == builder
+            {
+                let mut s4: S = TrackStore::new(PMetric::default(), PAttrs::default(), NoopNotifier, shards);
+                s4.add(8, 0, None, None, Some(PUpd)).unwrap();
+                s4.add(8, 1, Some(2.0), None, Some(PUpd)).unwrap();
+                let built4 = s4.new_track(8).observation((0, None, None, Some(PUpd))).observation((1, Some(2.0), None, Some(PUpd))).build().unwrap();
+                if peek(&s4, 8) != Some(view(&built4)) { failures.push(format!("{}: add() of an update-only observation then a regular one gives {:?}, the builder gives {:?}", ctx, peek(&s4, 8), view(&built4))); }
+            }
             // a rejected FIRST observation of an unknown id must not leave a track behind (as a failed external build would not)
             for reject_in_optimize in [false, true] {
                 let mut s3: S = TrackStore::new(PMetric::default(), PAttrs { v: 0, fail_merge: !reject_in_optimize }, NoopNotifier, shards);
